@@ -12,12 +12,33 @@
    a pair's two assets differ).  [user_op o]: the message is signed by a user account, not by
    the module accounts vaultV1 / collectorV1.
 
-   PARTIAL with respect to the property text in one respect, stated in the theorem names: the
-   model (Model/Vault.v) contains every vault / stable-mint message, unsolicited transfers and
-   the environment (prices, time, ESM, breaker) but NOT the liquidation sweeps, auction
-   settlement and ESM redemption; in the histories quantified over no vault is ever "awaiting
-   auction settlement", so those terms of clause (c) are identically zero here. *)
-From Comdex Require Import Lib.Base Lib.Atomic Model.Vault Model.VaultExample Proofs.VaultProofs Proofs.VaultInv.
+   FULL LIFE CYCLE (Model/VaultLife.v on top of Model/Vault.v): besides every vault / stable-mint message,
+   unsolicited transfers and the environment (prices, time, ESM, breaker) the histories quantified over
+   contain the wired generation-2 steps: seizure by liquidationsV2 (keeper message and BeginBlocker sweep),
+   successful dutch-auction bids (partial and closing; the amounts are environment values bounded as C10
+   proves), the auctionsV2 block tick (restart of expired auctions AND the ESM auction return TriggerEsm) and the
+   esm vault redemption set-up.  The vaults
+   "currently awaiting auction settlement" are exactly the liquidationsV2 locked-vault records; the clause of
+   the property about them is carried by [InvL] (Proofs/VaultLifeInv.v), which is [Inv01] of the books with
+   the locked vaults' collateral and principal subtracted from the published totals.
+   [InvL] carries the identities corrected by ghost terms and holds in EVERY history, including those that run
+   into the two known-finding classes where the identity of the property text fails on the faithful model
+   (both reproduced on the real keepers by the workload C01-life):
+   - C01-F2 [kf_C01_2]: a closing bid subtracts the seized vault's DEBT (principal + accrued interest +
+     closing fee) from TokenMintedAmount although only the principal was ever added; [drift] is the sum of
+     those excesses.
+   - C01-F4 [kf_C01_4_denom / kf_C01_4_prod]: under emergency shutdown the auctionsV2 BeginBlocker hands an
+     expired auction back (TriggerEsm) by re-creating / topping up the owner's vault without returning the
+     collateral to custody, without a matching update of the totals and without closing the auction, in every
+     block; [er_short], [er_coll], [er_mint] accumulate what each return leaves unbacked.
+   The identity of the property text is proved wherever these ghosts are zero ([kf_C01_life] = false).
+   Hypotheses on a history ([hist_ok], Proofs/VaultLifeHist.v): signers / liquidators / bidders are not the
+   custody account, and the environment amounts of a successful bid respect the bounds Properties/C10.v
+   (c10_bid_amounts) proves for the auction arithmetic (paid <= debt left, received <= collateral left).
+   The theorems named ..._messages_... are the earlier statements over histories of vault messages only. *)
+From Comdex Require Import Lib.Base Lib.Atomic Model.Vault Model.VaultExample Model.VaultLife Model.VaultLifeExample
+  Proofs.VaultProofs Proofs.VaultInv Proofs.VaultLifeBase Proofs.VaultLifeInv Proofs.VaultLifeHist Proofs.VaultLifeWitness.
+From Coq Require Import Sorted.
 
 (* the books before the first vault message satisfy the identity when custody is empty *)
 Theorem c01_init : forall c b sp t pr, (forall d, b VAULT d = 0) -> Inv01 c (init b sp t pr).
@@ -35,21 +56,21 @@ Theorem c01_rejected_noop : forall c s o, is_ok (run c s o) = false -> step c s 
 Proof. exact step_rejected. Qed.
 Print Assumptions c01_rejected_noop.
 
-(* between any two transactions of ANY finite history (any interleaving of users, products,
+(* between any two transactions of ANY finite history of vault messages (any interleaving of users, products,
    successful and rejected messages, price moves, time gaps, ESM / breaker switches, donations) *)
-Theorem c01_history_partial : forall c ops s, cfg_ok c -> Forall user_op ops -> Inv01 c s -> Inv01 c (run_all c ops s).
+Theorem c01_messages_history : forall c ops s, cfg_ok c -> Forall user_op ops -> Inv01 c s -> Inv01 c (run_all c ops s).
 Proof. intros c ops s CK U I. exact (history_inv01 c ops CK U s I). Qed.
-Print Assumptions c01_history_partial.
+Print Assumptions c01_messages_history.
 
 (* the executable predicate that the runner evaluates on the implementation's observations is
    implied by the invariant: on the model it can never fail *)
-Theorem c01_predicate_holds_partial : forall c ops b sp t pr denoms, cfg_ok c -> Forall user_op ops ->
+Theorem c01_messages_predicate_holds : forall c ops b sp t pr denoms, cfg_ok c -> Forall user_op ops ->
   (forall d, b VAULT d = 0) -> holds_C01 c denoms (run_all c ops (init b sp t pr)) = true.
 Proof.
   intros c ops b sp t pr denoms CK U Hb. apply inv01_holds.
   exact (history_inv01 c ops CK U _ (inv01_init c b sp t pr Hb)).
 Qed.
-Print Assumptions c01_predicate_holds_partial.
+Print Assumptions c01_messages_predicate_holds.
 
 (* non-vacuity: the example configuration and history (Model/VaultExample.v) meet every hypothesis;
    13 messages succeed, 2 are rejected, a vault and a stable-mint vault stay open *)
@@ -64,4 +85,113 @@ Proof. vm_compute. repeat split; reflexivity. Qed.
 (* the predicate is not trivially true: it rejects books whose counter is off by one *)
 Example c01_predicate_discriminates :
   holds_C01 ex_cfg ex_denoms (set_vlen (run_all ex_cfg ex_ops ex_init) 2) = false.
+Proof. vm_compute. reflexivity. Qed.
+
+(* ====================== the full life cycle ====================== *)
+
+(* the books before the first step *)
+Theorem c01_life_init : forall c b sp t pr, (forall d, b VAULT d = 0) -> InvL c (lift (init b sp t pr)).
+Proof. exact invL_init. Qed.
+Print Assumptions c01_life_init.
+
+(* one step of any kind: vault message, seizure (keeper message or sweep), bid, auction block tick (restart or
+   ESM return), esm vault redemption *)
+Theorem c01_life_step : forall c lc l o l', cfg_ok c -> lop_ok l o -> InvL c l -> lrun c lc l o = Ok l' -> InvL c l'.
+Proof. exact lrun_invL. Qed.
+Print Assumptions c01_life_step.
+
+Theorem c01_life_rejected_noop : forall c lc l o, is_ok (lrun c lc l o) = false -> lstep c lc l o = l.
+Proof. exact lstep_rejected. Qed.
+Print Assumptions c01_life_rejected_noop.
+
+(* between any two steps of EVERY finite history *)
+Theorem c01_history : forall c lc ops l, cfg_ok c -> hist_ok c lc l ops -> InvL c l -> InvL c (lrun_all c lc ops l).
+Proof. intros c lc ops l CK HO I. exact (history_invL c lc ops CK l HO I). Qed.
+Print Assumptions c01_history.
+
+(* what the invariant says, clause by clause of the property text; [er_short], [er_coll], [er_mint] are
+   ghosts that only TriggerEsm moves, [drift] only a closing bid *)
+Theorem c01_identities : forall c l, InvL c l ->
+  (forall d, bal (vs l) VAULT d = coll_sum c (vs l) d + unsol (vs l) d - er_short l d) /\
+  vlen (vs l) = zlen (vaults (vs l)) /\
+  (forall a p, pcoll (vs l) a p = prod_coll_sum (vs l) a p + lock_coll l a p - er_coll l a p /\
+               pmint (vs l) a p = prod_mint_sum (vs l) a p + lock_prin l a p - drift l a p - er_mint l a p /\
+               pids (vs l) a p = prod_ids (vs l) a p /\ StronglySorted Z.lt (prod_ids (vs l) a p)).
+Proof.
+  intros c l I. split; [intros d; exact (invL_custody c l d I)|]. split; [exact (invL_count c l I)|].
+  intros a p. exact (invL_prod c l a p I).
+Qed.
+Print Assumptions c01_identities.
+
+(* the executable predicate of the property text, as the runner evaluates it on the implementation's
+   observations, holds after every history outside the known-finding classes *)
+Theorem c01_predicate_holds : forall c lc ops b sp t pr denoms, cfg_ok c -> (forall d, b VAULT d = 0) ->
+  hist_ok c lc (lift (init b sp t pr)) ops ->
+  kf_C01_life c denoms (lrun_all c lc ops (lift (init b sp t pr))) = false ->
+  holds_C01_life c denoms (lrun_all c lc ops (lift (init b sp t pr))) = true.
+Proof.
+  intros c lc ops b sp t pr denoms CK Hb HO K. apply invL_holds; [|exact K].
+  exact (history_invL c lc ops CK _ HO (invL_init c b sp t pr Hb)).
+Qed.
+Print Assumptions c01_predicate_holds.
+
+(* ... and the ghost-corrected predicate (the invariant itself in executable form: the identities of
+   [c01_identities]) holds after EVERY history, with no known-finding hypothesis on the final state; the runner
+   uses it to tell a failure inside a known class from any other failure *)
+Theorem c01_adjusted_predicate_holds : forall c lc ops b sp t pr denoms, cfg_ok c -> (forall d, b VAULT d = 0) ->
+  hist_ok c lc (lift (init b sp t pr)) ops ->
+  holds_C01_adj c denoms (lrun_all c lc ops (lift (init b sp t pr))) = true.
+Proof.
+  intros c lc ops b sp t pr denoms CK Hb HO. apply invL_holds_adj.
+  exact (history_invL c lc ops CK _ HO (invL_init c b sp t pr Hb)).
+Qed.
+Print Assumptions c01_adjusted_predicate_holds.
+
+(* C01-F2 refuted on the faithful model: after seizure and one full bid on a product with a closing fee no
+   vault is open or awaiting settlement and the published TokenMintedAmount is -50000 *)
+Theorem c01_settlement_totals_refuted :
+  exists c lc l0 ops, cfg_ok c /\ InvL c l0 /\ hist_ok c lc l0 ops /\
+    let l := lrun_all c lc ops l0 in
+    vaults (vs l) = [] /\ lks l = [] /\ prods (vs l) 1 1 = Some (mkP 0 (-50000) []) /\
+    c01l_mint l 1 1 = false /\ holds_C01_life c [1; 2] l = false /\ kf_C01_2 l 1 1 = true /\ drift l 1 1 = 50000.
+Proof. exact settlement_totals_refuted. Qed.
+Print Assumptions c01_settlement_totals_refuted.
+
+(* C01-F4 refuted on the faithful model: two block ticks under emergency shutdown re-create the seized vault
+   twice (16000000 collateral recorded, nothing in custody, the auction still open); the history meets every
+   hypothesis, the ghost-corrected identities hold, the identities of the property text do not *)
+Theorem c01_esm_return_refuted :
+  exists c lc l0 ops, cfg_ok c /\ InvL c l0 /\ hist_ok c lc l0 ops /\
+    let l1 := lrun_all c lc (firstn 5 ops) l0 in
+    let l := lrun_all c lc ops l0 in
+    nth 5 ops (Sweep []) = AucTick /\ nth 6 ops (Sweep []) = AucTick /\ length ops = 7%nat /\
+    kf_C01_4 l1 true = true /\
+    vaults (vs l) = [mkV 2 2 1 5 16000000 22400000 0 0] /\ bal (vs l) VAULT 1 = 0 /\ bal (vs l) AUC 1 = 8000000 /\
+    zlen (lks l) = 1 /\ zlen (aus l) = 1 /\
+    c01l_custody c l 1 = false /\ c01l_coll l 1 5 = false /\ c01l_mint l 1 5 = false /\ holds_C01_life c [1; 2] l = false /\
+    kf_C01_4_denom l 1 = true /\ kf_C01_4_prod l 1 5 = true /\ er_short l 1 = 16000000 /\ holds_C01_adj c [1; 2] l = true.
+Proof. exact esm_return_refuted. Qed.
+Print Assumptions c01_esm_return_refuted.
+
+(* non-vacuity: history A of Model/VaultLifeExample.v (two vaults, price fall, keeper seizure, partial bid,
+   expiry + restart, sweep, closing bid) meets every hypothesis, all nine steps succeed, and at the point where
+   vault 1 awaits settlement (after the partial bid) the published totals 38000000 / 20000000 are the open
+   vault's 30000000 / 10000000 plus the locked vault's 8000000 / 10000000 *)
+Example c01_life_example_hyps : cfg_ok lx_cfg /\ InvL lx_cfg lx_init /\ hist_ok lx_cfg lx_lc lx_init lx_ops_a.
+Proof. exact (conj lx_cfg_ok (conj lx_init_inv lx_hist_a)). Qed.
+Example c01_life_example_run :
+  lclasses lx_cfg lx_lc lx_init lx_ops_a = [0; 0; 0; 0; 0; 0; 0; 0; 0] /\
+  let m := lrun_all lx_cfg lx_lc (firstn 5 lx_ops_a) lx_init in
+  let l := lrun_all lx_cfg lx_lc lx_ops_a lx_init in
+  prods (vs m) 1 5 = Some (mkP 38000000 20000000 [2]) /\ lock_coll m 1 5 = 8000000 /\ lock_prin m 1 5 = 10000000 /\
+  bal (vs m) VAULT 1 = 30000000 /\ vlen (vs m) = 1 /\ holds_C01_life lx_cfg lx_denoms m = true /\
+  map au_end (aus (lrun_all lx_cfg lx_lc (firstn 7 lx_ops_a) lx_init)) = [2201] /\
+  prods (vs l) 1 5 = Some (mkP 30000000 10000000 [2]) /\ lks l = [] /\ aus l = [] /\
+  kf_C01_life lx_cfg lx_denoms l = false /\ holds_C01_life lx_cfg lx_denoms l = true.
+Proof. vm_compute. repeat split; reflexivity. Qed.
+(* the life predicate is not trivially true: it rejects the seeded behaviour "subtract the collateral LEFT in
+   the auction" (6000000 instead of 8000000 stays in the published total) *)
+Example c01_life_predicate_discriminates :
+  let l := lrun_all lx_cfg lx_lc lx_ops_a lx_init in
+  holds_C01_life lx_cfg lx_denoms (set_vs l (upd_coll (vs l) 1 5 2000000 true)) = false.
 Proof. vm_compute. reflexivity. Qed.
